@@ -57,6 +57,9 @@ CHECKS = {
  "C16": ("exploration", "transport-log monitor with a reference grammar parser + reference builder model; scripted page histories for paging; exhaustive short insertion sequences",
          "All insertion sequences of length <=2 (quick) / <=3 (thorough, 160 434) over 18 filter kinds x 3 groups: the recorded request is parsed by a reference parser of the Master Server Query Protocol grammar and must denote exactly the model's plain/NAND/NOR groups, region and seed; page histories of 1-6 pages x 1-230 entries with every kind of ending check the returned list, the seed of each follow-up request and that nothing is requested after the terminator.",
          "Filter keys/grammar from DESIGN Appendix A.9; values without backslash/NUL/comma; empty tag lists and mid-page terminators observe-only.", "4 C16"),
+ "C18": ("exploration", "exhaustive configuration grid through every construction path, then M-panic over real loopback sockets, scripted queries of every protocol family, Eco over loopback HTTP and the CLI binary",
+         "All 1 875 grid points ((read, write, connect) in {None, 0, 1 ns, 1 ms, u64::MAX s}^3 x 5 retry counts x {new, clap, serde}) + Default: a zero duration must be rejected by every path; accepted values are used to build real UDP/TCP sockets, to run one scripted query per protocol family against a valid, a malformed and a silent server (step-monitor cuts are counted, not judged), for Eco over HTTP and for gamedig_cli flag invocations; no panic, no exit status 101.",
+         "clap expresses whole seconds only; CLI runs cut after 6 s are reported, not judged.", "4 C18"),
 }
 NOT_YET = {}
 for i in range(1, 21):
